@@ -151,7 +151,7 @@ struct IHarness {
 	virtual void logRandom(int head, int prong, float r) = 0;
 };
 
-struct NodeCtx { IHarness* h = nullptr; };   // the machine's context (by value)
+struct NodeCtx { IHarness* h = nullptr; bool typed = false; };   // the machine's context (by value); typed: use the templated API variants (changeTo<State>() ...) instead of the id-based ones
 
 // ---- internal state visible through the probe (plans / pool) -----------------------------------
 
@@ -184,6 +184,7 @@ struct INode {
 	virtual int substitutionLimit() const = 0;
 	virtual int taskCapacity() const = 0;
 	virtual int serialBytes() const = 0;
+	virtual void useTyped(bool on) = 0;                                      // templated (changeTo<State>()) or id-based (changeTo(id)) flavour of every call that has both
 	virtual int serialBits() const = 0;                                     // declared bit capacity of the serial buffer
 
 	// storage & lifetime: the engine owns the arena
